@@ -1635,6 +1635,17 @@ fn c14(ctx: &BoardCtx, p: &Pos, fen: &str, b: &mut Bitboard) {
             }
             Err(e) => ctx.viol("uci_to_pgn_rejects_legal_move".into(), fen, json!({"move": u, "error": format!("{:?}", e)})),
         }
+        // the same move written with blanks / line ends around it: the request function trims its
+        // argument, so such a text either is refused or names the same move — then the answer is the
+        // same text (every castling move, and an eighth of the others)
+        if rm.is_castle || (rm.from as u32 * 7 + rm.to as u32) % 8 == 0 {
+            for padded in [format!(" {}", u), format!("{}\n", u), format!("\t{}\r\n", u)] {
+                match b.uci_to_pgn(&padded) {
+                    Ok(actual) if actual != expected => ctx.viol(format!("entry_points:padded_request_differs:{}", class_of(rm)), fen, json!({"move": u, "request": padded, "expected": expected, "actual": actual})),
+                    _ => {}
+                }
+            }
+        }
         // the other public way to the same text: Move::to_pgn_string (a quarter of the moves)
         if rm.from % 4 == 0 {
             let rk = mkey_ref(rm);
